@@ -15,7 +15,7 @@ DEFAULT_ASSUMPTIONS = [
 
 
 def weight(job):
-    w = {"bytes-exh": 10, "bytes-pbt": 6, "bytes-bitmaps": 5, "sub-exh": 12, "sub-pbt": 8, "pp-exh": 9, "pp-pbt": 7, "steps": 9, "threads": 6}
+    w = {"bytes-exh": 10, "bytes-pbt": 6, "bytes-bitmaps": 5, "sub-exh": 12, "sub-pbt": 8, "pp-exh": 9, "pp-pbt": 7, "steps": 9, "threads": 6, "huge": 20}
     return w.get(job["stage"], 5) * (3 if job["config"].startswith("E-") else 1)
 
 
@@ -51,6 +51,11 @@ def miri_stage(kinds, quick=40, thorough=3000, targets=None):
     """Generated cases interpreted by Miri for other targets (real NEON intrinsics on aarch64, 32-bit and big-endian SWAR)."""
     return {"name": "casefile", "kind": "casefile", "configs": cfgs(["N-auto"] + (targets or MIRI_ALL)), "kinds": kinds,
             "count": {"quick": 0, "thorough": 0}, "miri_count": {"quick": quick, "thorough": thorough}, "miri_per_shard": 20}
+
+
+def huge_stage(configs):
+    """Haystacks of 4 GiB + 64 KiB (zero pages, a few planted bytes): offsets, counts and accumulated state beyond 32 bits."""
+    return {"name": "huge", "cmd": "huge", "configs": cfgs(configs), "shards": 1}
 
 
 def iter_stages():
@@ -97,24 +102,24 @@ PLANS = {
                 "Non-trivial: the first match lies beyond the first vector of the implementation under test, or the haystack is non-empty "
                 "and shorter than one vector, or the match is on the 2nd/3rd needle. Distinct: enumerated cases are distinct by "
                 "construction; generated cases are deduplicated by a hash of (needles, haystack, placement).",
-        "stages": byte_stages() + [miri_stage("B", targets=["M-a64", "M-i686", "M-s390x"])],
+        "stages": byte_stages() + [miri_stage("B", targets=["M-a64", "M-i686", "M-s390x"]), huge_stage(NATIVE)],
     },
     "C02": {
         "rule": "as C01 with the END alignment as the enumerated axis (the reverse scan aligns on the end pointer) and rfind/rfind_raw/"
                 "memrchr* judged against the naive last position. Non-trivial: the last match lies before the final vector of the scan, "
                 "or 0 < len < one vector, or the match is on the 2nd/3rd needle.",
-        "stages": byte_stages() + [miri_stage("B", targets=["M-a64", "M-i686", "M-s390x"])],
+        "stages": byte_stages() + [miri_stage("B", targets=["M-a64", "M-i686", "M-s390x"]), huge_stage(NATIVE)],
     },
     "C03": {
         "rule": SUB_GEN + "Judged: memmem::find, Finder::find, FinderBuilder(Prefilter::None)::find against the naive leftmost occurrence. "
                 "Non-trivial: needle length >= 2 and it occurs, or a window sharing >= half of the needle's prefix precedes the answer. "
                 "Distinct by hash of (needle, haystack); enumerated pairs are distinct by construction.",
-        "stages": sub_stages(),
+        "stages": sub_stages() + [huge_stage(["N-auto", "N-fb"])],
     },
     "C04": {
         "rule": SUB_GEN + "Judged: memmem::rfind and FinderRev::rfind against the naive rightmost occurrence (empty needle -> haystack length). "
                 "Non-trivial as C03.",
-        "stages": sub_stages(short=False),
+        "stages": sub_stages(short=False) + [huge_stage(["N-auto"])],
     },
     "C06": {
         "rule": "cases = (needle set, haystack, placement); for every case the COMPLETE next/next_back call tree is explored through clone() "
@@ -131,14 +136,14 @@ PLANS = {
                 "all-but-one; plus count() of a clone taken at EVERY node of the complete next/next_back call tree (partially consumed iterators) "
                 "against the model's remaining count. Non-trivial: >= 2 matches in different regions of the scan, or an iterator advanced from "
                 "at least one end.",
-        "stages": byte_stages() + iter_stages(),
+        "stages": byte_stages() + iter_stages() + [huge_stage(NATIVE)],
     },
     "C08": {
         "rule": SUB_GEN + "Judged: memmem::find_iter, Finder::find_iter (default and Prefilter::None), memmem::rfind_iter, FinderRev::rfind_iter and "
                 "the into_owned() forms, driven to the end + 3 extra calls, against the literal greedy model (leftmost, resume at i+max(len,1); mirror "
                 "image from the right; empty needle yields every offset once); size_hint of FindIter must bracket the remaining count before every "
                 "step. Non-trivial: needle length >= 2 and it occurs, or a near miss precedes the answer.",
-        "stages": sub_stages(short=False),
+        "stages": sub_stages(short=False) + [huge_stage(["N-auto"])],
     },
     "C11": {
         "rule": "cases = (needle, (index1, index2), haystack). Enumerated: every needle of length 2..=5 over {a,b} (2..=4 over {a,b,c}) x every ordered "
@@ -197,9 +202,9 @@ PLANS = {
                 "run on the native levels and emulated back ends. Non-trivial: a case executed in >= 2 configurations with a match (haystack >= 16 bytes).",
         "stages": [
             {"name": "casefile", "kind": "casefile", "configs": cfgs(NATIVE + ["X-nostd", "X-alloc", "X-avx2ct", "X-plain"] + EMU + ["M-x86", "M-avx2", "M-a64", "M-i686", "M-s390x"]),
-             "count": {"quick": 120000, "thorough": 3000000}, "miri_count": {"quick": 60, "thorough": 4000}, "miri_per_shard": 30, "fast_shards": 8},
+             "count": {"quick": 60000, "thorough": 3000000}, "miri_count": {"quick": 40, "thorough": 4000}, "miri_per_shard": 20, "fast_shards": 8},
             {"name": "bytes-pbt", "cmd": "bytes-pbt", "configs": cfgs(NATIVE + EMU), "shards": shards(4, 16, 2, 8)},
-            {"name": "bytes-exh", "cmd": "bytes-exh", "configs": cfgs(NATIVE + EMU), "shards": shards(16, 16, 8, 16)},
+            {"name": "bytes-exh", "cmd": "bytes-exh", "configs": cfgs(NATIVE + EMU), "shards": shards(16, 16, 8, 16), "thorough_only": True},
             {"name": "iter-pbt", "cmd": "iter-pbt", "configs": cfgs(NATIVE + EMU), "shards": shards(4, 8, 2, 4)},
             {"name": "sub-pbt", "cmd": "sub-pbt", "configs": cfgs(NATIVE + EMU), "shards": shards(8, 16, 4, 8)},
             {"name": "sub-short", "cmd": "sub-short", "configs": cfgs(NATIVE + EMU), "shards": shards(2, 8, 2, 4)},
@@ -249,6 +254,7 @@ PLANS = {
             {"name": "pair-pbt", "cmd": "pair-pbt", "configs": cfgs(["N-auto"]), "shards": shards(2, 8)},
             {"name": "c10", "cmd": "c10", "configs": cfgs(["N-auto", "N-fb"]), "shards": shards(4, 8)},
             {"name": "history", "cmd": "history", "configs": cfgs(["N-auto"]), "shards": shards(4, 8)},
+            huge_stage(["N-auto", "N-fb"]),
         ],
     },
     "C15": {
